@@ -15,9 +15,34 @@ U64 = (1 << 64) - 1
 def mk(ctx, _ty, _hint='', **fields):
     name, hint = _ty, _hint
     order = ctx.src.struct_fields(name, hint)
+    if order is not None and set(fields) < set(order):
+        # the source struct has fields this pre-state does not know (added since): they get the value the struct's own
+        # argument-less constructor gives them (e.g. an empty cache).  Anything else is exit 2.
+        init = _constructed(ctx, name)
+        if init is not None:
+            fields = dict(fields)
+            for f in order:
+                if f not in fields:
+                    fields[f] = init.fields[order.index(f)]
     if order is None or set(order) != set(fields):
         raise Unsupported('struct %s: source fields %r, given %r' % (name, order, sorted(fields)))
     return Agg(name, [fields[f] for f in order])
+
+
+def _constructed(ctx, name):
+    p = getattr(ctx, 'cur_path', None)
+    if p is None:
+        return None
+    try:
+        fn = ctx.fn(name, 'new')
+        fn.parse()
+        if fn.params:
+            return None
+        from interp import Interp, run_to_end
+        v = run_to_end(Interp(ctx, p).call_fn(fn, []))
+        return v if isinstance(v, Agg) and v.name == name else None
+    except Exception:
+        return None
 
 
 def mk_opt(ctx, _ty, _hint='', **fields):
